@@ -132,18 +132,11 @@ def numeric_isinstance_ok(test):
     return {"int", "float"} <= names
 
 
-def run(repo, res, tier):
-    res.rule("RANGE", "AngleInterval containment: asserts proved, offsets non-negative, bound reaches 2pi (interval abstract interpretation)", 4)
-    res.rule("DISPATCH", "number/interval dispatch admits int and float", 2)
-    res.rule("CLOSED", "Interval predicates are closed and compare the right operands", 5)
-    res.rule("IMAGE", "interval arithmetic yields the image set with start <= end through the checking constructor", 5)
-    res.rule("REJECT", "start > end is rejected; AngleInterval normalises and bounds the length", 5)
-    res.rule("SUBSET", "AngleInterval.contains(interval) compares start offset + argument length with the own length", 1)
+def range_rule(repo, res, RULE="RANGE"):
+    """interval abstract interpretation of AngleInterval.contains / __contains__ under the class invariant (shared with
+    C08, whose orientation clause is exactly this containment)"""
     mod = repo.mod(U)
-    iv = repo.cls(U, "Interval")
     av = repo.cls(U, "AngleInterval")
-
-    # ------------------------------------------------------------- RANGE
     facts = {}
     for who in ("self", "other"):
         facts["%s.start" % who] = (-TWO_PI, TWO_PI)
@@ -159,7 +152,7 @@ def run(repo, res, tier):
         it.run_body(fn.body, env, 0)
         qn = "AngleInterval." + mn
         for node, text, proved in it.asserts:
-            res.check("RANGE", "%s: assert %s" % (qn, text), proved, mod, node, "%s: assert %s" % (qn, text), "the assertion can fail for an admissible interval (e.g. one longer than pi): containment raises AssertionError", qualname=qn)
+            res.check(RULE, "%s: assert %s" % (qn, text), proved, mod, node, "%s: assert %s" % (qn, text), "the assertion can fail for an admissible interval (e.g. one longer than pi): containment raises AssertionError", qualname=qn)
         for node, val, e in it.returns:
             cmps = [c for c in ast.walk(val) if isinstance(c, ast.Compare)]
             for c in cmps:
@@ -173,7 +166,7 @@ def run(repo, res, tier):
                 inner = [(o, r) for o, r in zip(operands, rng) if not isinstance(o, ast.Constant)]
                 nonneg = all(r[0] >= 0 and r[1] >= TWO_PI - 1e-9 for _o, r in inner)
                 res.check(
-                    "RANGE",
+                    RULE,
                     "%s: %s operands range over [0, 2pi) %s" % (qn, norm(c), [(norm(o), (round(r[0], 3), round(r[1], 3))) for o, r in inner]),
                     nonneg,
                     mod,
@@ -183,7 +176,7 @@ def run(repo, res, tier):
                     qualname=qn,
                 )
                 res.check(
-                    "RANGE",
+                    RULE,
                     "%s: bound of %s reaches 2pi (range %s)" % (qn, norm(c), (round(bound[0], 3), round(bound[1], 3))),
                     bound[1] >= TWO_PI - 1e-9 and not all(isinstance(o, (ast.Lt, ast.Gt)) for o in c.ops),
                     mod,
@@ -194,6 +187,21 @@ def run(repo, res, tier):
                 )
     if n_cmp < 2:
         raise AnalysisError("AngleInterval containment comparisons not found")
+
+
+
+def run(repo, res, tier):
+    res.rule("RANGE", "AngleInterval containment: asserts proved, offsets non-negative, bound reaches 2pi (interval abstract interpretation)", 4)
+    res.rule("DISPATCH", "number/interval dispatch admits int and float", 2)
+    res.rule("CLOSED", "Interval predicates are closed and compare the right operands", 5)
+    res.rule("IMAGE", "interval arithmetic yields the image set with start <= end through the checking constructor", 5)
+    res.rule("REJECT", "start > end is rejected; AngleInterval normalises and bounds the length", 5)
+    res.rule("SUBSET", "AngleInterval.contains(interval) compares start offset + argument length with the own length", 1)
+    mod = repo.mod(U)
+    iv = repo.cls(U, "Interval")
+    av = repo.cls(U, "AngleInterval")
+
+    range_rule(repo, res)
 
     # ------------------------------------------------------------- SUBSET
     from .c04 import inequalities, linear
